@@ -29,8 +29,26 @@ import (
 // the same name [Simple.Encode] used: a code left out here because its text is
 // implied must be one the implication holds for.
 func (t *Simple) ToUnicode() *cmap.ToUnicodeFile {
+	return t.toUnicode(false)
+}
+
+// ToUnicodeBuiltin returns the ToUnicode CMap for a font dictionary which
+// does not carry the glyph names, i.e. one written with the font's built-in
+// encoding.  Nothing is implied by a glyph name a reader never sees, so every
+// code with a text is listed.
+func (t *Simple) ToUnicodeBuiltin() *cmap.ToUnicodeFile {
+	return t.toUnicode(true)
+}
+
+func (t *Simple) toUnicode(all bool) *cmap.ToUnicodeFile {
 	m := make(map[charcode.Code]string)
 	for k, c := range t.code {
+		if all {
+			if k.text != "" {
+				m[charcode.Code(c)] = k.text
+			}
+			continue
+		}
 		glyphName := t.glyphName[k.gid]
 		implied := names.ToUnicode(glyphName, t.fontName)
 		if k.text != implied {
